@@ -304,7 +304,11 @@ def extra_checks_inner(pid, tier):
         if pid == "C08":
             return c08_frame()
         if pid == "C02":
-            return c02_defaults()
+            import vxcompile
+            return c02_defaults() + vxcompile.c02_compile(tier)
+        if pid == "C12":
+            import vxcompile
+            return vxcompile.c12_compile(tier) + vxcompile.c12_mutual(tier)
         if pid == "C18":
             return compile_probes("C18", ["c18_named_serde_derives", "c18_path_qualified_derives"])
     except Undecided as e:
